@@ -145,10 +145,10 @@ class SyncDaliHatDriver(DaliHatSerialDriver, SyncDALIDriver):
                     elif resp:
                         last_resp = None
                         resend = True
-                if resend and resent_times < 5:
-                    self.conn.write(cmd)
-                    REPS += 1 + send_twice
-                    resent_times += 1
+                    if resend and resent_times < 5:
+                        self.conn.write(cmd)
+                        REPS += 1 + send_twice
+                        resent_times += 1
             if command.is_query:
                 return command.response(resp)
             return resp
